@@ -95,3 +95,16 @@ def fresh_results(ctx, rule, rel, floor, what='index arrays'):
                 bad.append('%s is memoised by @%s (line %d)' % (f.name, dn, d.lineno))
     ctx.ob(rule, rel, 'no function of the module is memoised: each call returns %s of its own (%d functions examined)' % (what, len(fns)), not bad, '; '.join(bad), node=mod, key='fresh results ' + rel)
     ctx.floor('%s/%s' % (rule, rel), len(fns), floor)
+
+
+def c_double(ctx, rule, rel, floor):
+    """C-DOUBLE: every C floating-point parameter, local and typed buffer of the compiled module is a `double`.  A C `float` is 32 bits: a cutoff, coordinate or
+    squared distance held in one is rounded to 7 significant digits, which moves pairs whose separation is within 6e-8 (relative) of the cutoff across it."""
+    mod = ctx.mod(rel)
+    decls = getattr(mod, '_cdecls', None)
+    ctx.need(decls is not None, '%s was not parsed as Cython' % rel)
+    fl = [d for d in decls if d[1] in ('double', 'float', 'long double', 'np.float64_t', 'np.float32_t', 'float64_t', 'float32_t')]
+    bad = [d for d in fl if d[1] not in ('double', 'np.float64_t', 'float64_t')]
+    ctx.ob(rule, rel, 'every C floating-point declaration (%d parameters, locals and typed buffers) is double precision' % len(fl), not bad,
+           '; '.join('`%s %s` at line %d' % (d[1], d[0], d[3]) for d in bad), node=mod, key='c double ' + rel)
+    ctx.floor('%s/%s' % (rule, rel), len(fl), floor)
